@@ -68,6 +68,15 @@ def gen(rng, tier):
                 if tier == "quick" and L > 7000 and lim not in (4096, L - 1):
                     continue
                 cases.append("X %d ok %d %s" % (S, lim, upload("/g%d" % (L + 5), L, L, declared, False, rng.randint(1, 10**6), declared)))
+    # the blocking pool (one thread) is kept busy by another request while an upload is abandoned mid-body / refused:
+    # the temp file must be gone when the upload's connection has ended, whatever the pool is doing
+    nb = 3 if tier == "quick" else 40
+    for j in range(nb):
+        L = [70000, 200000, 65537, 100][j % 4]
+        cut = [L // 2, 1, L - 1, 50][j % 4]
+        declared = j % 3 != 2
+        path = ["/g%d" % (L + 5), "/g%d" % (L + 5), "/g%d" % max(L - 1, 0)][j % 3]
+        cases.append("B %d ok %d %s" % (S, 1200, upload(path, L, cut, declared, False, rng.randint(1, 10**6), False)))
     # idle keep-alive: the client has read the answers and keeps the connection open without sending anything; no temp
     # file may be alive then (mode I: known-length uploads answered 2xx, one or two on the same connection)
     ni = 6 if tier == "quick" else 60
